@@ -32,9 +32,9 @@ PROPS = {
              "before/after/alternate injections outside the replaced regions, through all four API paths; non-trivial = plan non-empty",
         level_text="Partial: the executable specification spec21 (the construct from its opener through its matching end - for else: the else and its arm - replaced by the replacement code; "
                    "everything outside untouched) is evaluated in Coq against the real output, and the flat mirror model against the real output, on every sampled case; acceptance/rejection "
-                   "of block-alt is proved; `model = spec21` for all bodies is not proved yet. Known class D19.",
+                   "of block-alt is proved; `model = spec21` for all bodies is not proved yet.",
         level_note="Trusted: Coq kernel + vm_compute; the harness. Modelled, not verified: resolve_special_instrumentation (block_alt / delete_block / retain_end handling), emission loop.",
-        technique="in-Coq differential correspondence + executable specification; Coq lemmas on the API model; refutation witness",
+        technique="in-Coq differential correspondence + executable specification; Coq lemmas on the API model",
         design_ref="5/C21", trusted_base=LOW_TB, modelled="resolve_special_instrumentation, plan_resolution_block_alt, emission loop",
         assumptions=["plans that put other injections inside a replaced region, or delete structural instructions with plain alternate, are outside the domain (still compared with the mirror model)"],
     ),
@@ -45,7 +45,7 @@ PROPS = {
         rule="random bodies with plans over all seven modes plus function entry/exit, through all four API paths, occasionally with an unused import deleted before encoding; every probe "
              "carries unique marker constants; non-trivial = at least one special-mode or function-level injection",
         level_text="Partial proof: rejection at the call for inapplicable instructions, acceptance otherwise, and the 'special' report of add_instr (all operators, modes, flags); the end-to-end statement "
-                   "(every accepted special injection outside a removed region is reflected in the encoded body, no BUG log line) is decided per case in Coq on the real output. Known classes D16, D19, D20.",
+                   "(every accepted special injection outside a removed region is reflected in the encoded body, no BUG log line) is decided per case in Coq on the real output. Known class D16 (D19 and D20 were repaired by fix: commits).",
         level_note="Trusted: Coq kernel + vm_compute; the harness (markers, log capture). Modelled, not verified: the injection paths, resolve_special_instrumentation, emission.",
         technique="Coq lemmas on the API model + in-Coq marker check on the real output + refutation witnesses",
         design_ref="5/C22", trusted_base=LOW_TB, modelled="add_instr, the four API paths, resolve_special_instrumentation, emission",
